@@ -21,7 +21,9 @@ RULE = ("exhaustive: every subset A of S_0..S_3 (2^10) x every 1<=m<=n<=3 x the 
         "carry the implementation's output and perturbed variants of it so that every verdict is seen False too; "
         "auto_bisc: properties 'avoids these 1-2 mesh patterns of length 2' given as functions (3 literal + 7 random, 40 "
         "thorough), each evaluated once on the implementation, judged by the oracle on S_0..S_8 and compared with the "
-        "Lean model of auto_bisc under the choices of bases[0] that reproduce the answer; "
+        "Lean model of auto_bisc under the choices of bases[0] that reproduce the answer; auto_bisc on LISTS (avoiders "
+        "of 1-2 short patterns up to length N in 6..8, plus extra/repeated members, reversed) and on PAIRS of dictionaries "
+        "(keys 0..NA, 0..NB, NA, NB in 0..8) including every way of returning None, compared the same way; "
         "non-trivial: bisc = the output has a learned pattern, mine = some recorded set is non-empty, judge/suff = "
         "the dictionary has a pattern, cleanup = a basis is returned, pcont/mcont = some shading is given; "
         "distinct = distinct op lines")
@@ -51,8 +53,19 @@ PARTIAL = [
     "not depend on the order of the shadings) - the latter is what the quick-tier stream auto-bisc-functions "
     "evaluates: the implementation's answer must be returned by the model under SOME choice function (the driver "
     "searches the choices and prints autoBisc under them)",
-    "auto_bisc for a list, a pair of dictionaries or a file name (the branches that can give up with None) is not "
-    "modelled; the shipped properties (`auto smooth` ...) are judged by the brute-force oracle only, thorough tier",
+    "auto_bisc for a LIST and for a PAIR of dictionaries is modelled (Model/C17AutoSrc.lean: autoBiscSrc/autoBiscList/"
+    "autoBiscPair with Source = function | list maxA | pair maxA maxB; the function source is proved equal to the old "
+    "model, C17.auto_bisc_src_function) and compared with the implementation (streams auto-bisc-lists, auto-bisc-pairs); "
+    "proved: a returned description passed both checks on the data present up to the final L >= 8 "
+    "(auto_bisc_src_returns_checked, auto_bisc_list_sound, auto_bisc_pair_returns_checked), the outcomes "
+    "(auto_bisc_src_outcomes: description / None at the start iff 8 is no key / None from the growth step only for "
+    "list or pair / still running / exception), list source = function source on the same dictionaries unless the "
+    "'longer list' exit is taken (auto_bisc_list_agrees_with_function).  NOT proved: that for the concrete list of all "
+    "permutations of length <= N satisfying P the dictionaries listA/listB may be replaced by goodOf P/badOf P (they agree "
+    "on the lengths <= N, the only ones read; needs a congruence of mine/clean_up in the dictionary); absence of "
+    "run_clean_up exceptions for list/pair inputs; the pair source ASSUMES contiguous keys 0..maxA, 0..maxB (plain "
+    "dictionaries with missing keys raise KeyError in the implementation, not modelled); the file-name (str) branch is "
+    "not modelled; the shipped properties (`auto smooth` ...) are judged by the brute-force oracle only, thorough tier",
     "order independence is PROVED for the model (C17.list_order_independence, forb_mine_order_independence, "
     "hitting_order_independence, forb_choice_independence: every execution of forb - any free cell branched on in "
     "any call - on any rearrangement of the input prints the same canonical line); what stays correspondence-only is "
@@ -215,13 +228,32 @@ def _P1(tok):
     return used.obj(("P1", tok), lambda: Perm(pseq(tok)), lambda o: used.warm_perm(o, 1))
 
 
-def _SG(tok):
-    return used.obj(("SG", tok), lambda: pdict(tok, mk=Perm))
+def _SG(tok, reorder=False):
+    """the learned patterns as the dictionary the token denotes; with reorder, on every second token the EQUAL
+    dictionary whose length keys (and the patterns of each length) were inserted in the opposite order - a caller may
+    have merged or re-keyed it, and the sanity checks may not depend on the insertion order (seed C17-11)"""
+    def make():
+        d = pdict(tok, mk=Perm)
+        if reorder and used.digest("SG", [tok]) % 2 == 1:
+            d = {k: dict(reversed(list(d[k].items()))) for k in reversed(list(d))}
+        return d
+    return used.obj(("SG", tok, reorder), make)
 
 
 def impl(op, a):
     if op == "bisc":
         return impl_bisc(a[0], int(a[1]), pn(a[2]), a[3])
+    if op in ("autolist", "autolistm", "autopair", "autopairm"):
+        # `autolistm <patterns> <N> <rev> <extra> <answer>` / `autopairm <patterns> <NA> <NB> <answer>`: the same call
+        # as `autolist` / `autopair` without the last token (only the Lean side reads the answer)
+        base = op[:-1] if op.endswith("m") else op
+        args = a[:4] if base == "autolist" else a[:3]
+        key = (base,) + tuple(args)
+        if key not in _auto_cache:
+            if len(_auto_cache) > 32:
+                _auto_cache.clear()
+            _auto_cache[key] = _limited(lambda: _impl(base, args))
+        return _auto_cache[key]
     if op in ("auto", "autom", "automodel"):
         # (the oracle judges the implementation's own answer: one evaluation per line and worker process)
         # `automodel <patterns> <answer>`: the same call as `autom <patterns>`; the second token is the answer the
@@ -324,7 +356,7 @@ def _impl(op, a):
             D = used.obj(("D",), lambda: {k: [p for p in A if len(p) == k] for k in range(K + 1)})
             fn = S.patterns_suffice_for_good if a[0] == "good" else S.patterns_suffice_for_bad
             with quiet():
-                val, lst = fn(_SG(a[4]), int(a[1]), D, stop_on_failure=(a[2] == "T"))
+                val, lst = fn(_SG(a[4], True), int(a[1]), D, stop_on_failure=(a[2] == "T"))
             return "%s:%s" % (fbool(val), fseqs(lst))
         return guarded(f)
     if op == "cleanup":
@@ -350,6 +382,28 @@ def _impl(op, a):
             prop = _mesh_prop(a[0])
             with quiet():
                 r = B.auto_bisc(lambda perm: prop(tuple(perm)))
+            return "None" if r is None else fdict(r)
+        return guarded(f)
+    if op == "autolist":
+        # auto_bisc on a LIST: all avoiders of the mesh patterns of length <= N (Perm.of_length order), then `extra`
+        def f():
+            prop = _mesh_prop(a[0])
+            lst = [p for k in range(int(a[1]) + 1) for p in Perm.of_length(k) if prop(tuple(p))]
+            lst += [Perm(q) for q in pseqs(a[3])]
+            if a[2] == "T":
+                lst.reverse()
+            with quiet():
+                r = B.auto_bisc(lst)
+            return "None" if r is None else fdict(r)
+        return guarded(f)
+    if op == "autopair":
+        # auto_bisc on a PAIR of plain dictionaries with the keys 0..NA (avoiders) and 0..NB (the others)
+        def f():
+            prop = _mesh_prop(a[0])
+            Ad = {k: [p for p in Perm.of_length(k) if prop(tuple(p))] for k in range(int(a[1]) + 1)}
+            Bd = {k: [p for p in Perm.of_length(k) if not prop(tuple(p))] for k in range(int(a[2]) + 1)}
+            with quiet():
+                r = B.auto_bisc((Ad, Bd))
             return "None" if r is None else fdict(r)
         return guarded(f)
     raise ValueError("unknown op " + op)
@@ -486,6 +540,33 @@ def oracle(op, a):
             return None
         k = len(c)
         return fcells({(x, y) for x in range(k + 1) for y in range(k + 1)} - hit(s, c))
+    if op in ("autolist", "autolistm", "autopair", "autopairm"):
+        # a description can only be returned after it was checked against good AND bad permutations of every length
+        # up to 8: without them the answer is None; a returned description must separate the given good permutations
+        # from the others on S_0..S_8
+        out = impl(op, a)
+        if out == "ERR:Timeout":
+            return "auto_bisc terminates (limit %d s)" % AUTO_SECONDS
+        mp = _mesh_prop(a[0])
+        if op.startswith("autolist"):
+            N = int(a[1])
+            extra = [tuple(q) for q in pseqs(a[3])]
+            good = lambda s: (len(s) <= N and mp(tuple(s))) or tuple(s) in extra  # noqa: E731
+            if not any(len(s) == 8 and good(s) for s in itertools.permutations(range(8))):
+                return "None"
+        else:
+            good = lambda s: mp(tuple(s))  # noqa: E731
+            if int(a[1]) < 8 or int(a[2]) < 8:
+                return "None"
+        if out == "None" or out.startswith("ERR:"):
+            return None
+        ms = meshes(pdict(out))
+        for k in range(9):
+            for s in itertools.permutations(range(k)):
+                av = not any(len(q) <= k and contains_mesh(s, q, R) for q, R in ms)
+                if av != bool(good(s)):
+                    return "VIOLATES on %s: avoids returned patterns=%s, given as good=%s" % (fseq(s), fbool(av), fbool(not av))
+        return out
     if op in ("auto", "autom", "automodel"):
         # "avoiding the returned patterns coincides with the property on every permutation up to length 8"
         out = impl(op, a)
@@ -713,7 +794,7 @@ def _auto_model(line):
     return p.stdout.decode().rstrip("\n")
 
 
-def auto_stream(ctx, stream, specs):
+def auto_stream(ctx, stream, specs, op="autom", opm="automodel"):
     """auto_bisc on properties given as functions: each property is evaluated ONCE on the implementation (and judged by
     the oracle), the answer is put into the line `automodel <patterns> <answer>` and the Lean model says whether some
     choice of `bases[0]` makes it return that answer (it prints what it returns under those choices)."""
@@ -722,12 +803,12 @@ def auto_stream(ctx, stream, specs):
     import sys
     import time
     t0 = time.time()
-    pre = ["autom " + sp for sp in specs]
+    pre = [op + " " + sp for sp in specs]
     res = [r[0] for r in ctx.pool.map(core._eval_chunk, [[l] for l in pre])]
     t1 = time.time()
     lines = []
     for sp, (io, oo, nt) in zip(specs, res):
-        lines.append("automodel %s %s" % (sp, io if (" " not in io and io) else "?"))
+        lines.append("%s %s %s" % (opm, sp, io if (" " not in io and io) else "?"))
     mos = None
     if ctx.model_ok and core.driver_available():
         mos = list(ctx.pool.map(_auto_model, lines))
@@ -954,6 +1035,22 @@ def run(ctx):
             ms.append("%s/%s" % (fseq(q), fcells(cells)))
         lines.append("autom " + ";".join(ms))
     auto_stream(ctx, "auto-bisc-functions", [l.split(" ", 1)[1] for l in lines])
+    # ---- the automatic driver on a LIST and on a PAIR of dictionaries (the inputs that can give up with None);
+    # the good sets are kept small: line 75 of bisc.py tests `perm not in A[i]` for every permutation of length i
+    L = ["1,0/_ 8 F -", "1,0/_ 8 T -", "0,1/1.1 8 F -", "1,0/_ 7 F -", "0,1/0.0,1.1;1,0/2.2 8 F -",
+         "1,0/_ 8 F 1,0,2,3,4,5,6,7", "1,0/_ 8 T 0,1", "1,0/_ 8 F 1,0;0,1,2", "1,0/_ 7 F 1,0,2,3,4,5,6,7",
+         "0,1/_ 8 F 0,1,2,3,4,5,6,7,8", "0,1/_ 6 F 7,6,5,4,3,2,1,0;7,6,5,4,3,2,1,0"]
+    P = ["1,0/0.0,1.1,2.2 8 8", "0,1/0.0,1.1;1,0/2.2 8 8", "1,0/_ 8 8", "1,0/_ 7 8",
+         "1,0/_ 8 3", "1,0/_ 8 7", "0,1/1.1 8 0", "0,1/_;1,0/_ 8 8", "1,0/_ 0 0"]
+    for _ in range(2 if not thorough else 12):
+        q = rng.choice([(0, 1), (1, 0)])
+        cells = [(x, y) for x in range(3) for y in range(3) if rng.random() < 0.3]
+        P.append("%s/%s %d %d" % (fseq(q), fcells(cells), rng.choice((8, 8, 7)), rng.choice((8, 8, 8, 5))))
+    if thorough:
+        L += ["1,0/0.0,0.1,1.1,2.2;1,0/0.0,1.2,2.1,2.2 8 F -", "1,0/0.1 8 F -"]
+        P += ["1,0/0.0,0.1,1.1,2.2;1,0/0.0,1.2,2.1,2.2 8 8"]
+    auto_stream(ctx, "auto-bisc-lists", L, op="autolist", opm="autolistm")
+    auto_stream(ctx, "auto-bisc-pairs", P, op="autopair", opm="autopairm")
     # ---- malformed / outside the stated precondition (model correspondence only)
     lines = []
     for _ in range(60 if not thorough else 400):
